@@ -229,6 +229,25 @@ fn exec_inner(op: &str, a: &[Value]) -> Value {
             let e = payload(exec_inner(&format!("{}.eq_{}", ty, other), a));
             return ok(json!([c, e]));
         }
+        "roundtrip" => {
+            // format -> parse -> format with the same picture; later parts only if the earlier succeeded
+            let t1 = exec_inner(&format!("{}.format", ty), a);
+            let mut parts = vec![t1.clone()];
+            if t1[0] == json!(0) {
+                let text = t1[1].clone();
+                let p = exec_inner(&format!("{}.parse", ty), &[text, a[1].clone()]);
+                parts.push(p.clone());
+                if p[0] == json!(0) {
+                    parts.push(exec_inner(&format!("{}.format", ty), &[p[1].clone(), a[1].clone()]));
+                } else {
+                    parts.push(json!([1, 0]));
+                }
+            } else {
+                parts.push(json!([1, 0]));
+                parts.push(json!([1, 0]));
+            }
+            return ok(Value::Array(parts));
+        }
         "now_at" | "from_time_at" | "parse_at" => {
             let clock = a[0].as_array().unwrap_or_else(|| panic!("harness: clock expected"));
             set_clock(clock);
